@@ -5,9 +5,10 @@ CONSTANTS
   ByteStrings <- BytesQuick
   NumSeqs <- NumsThorough
   NewObjs <- MCNewObjs
+  InheritBound <- MCInheritBound
   MaxDepth = 2
   Starts <- StartsThorough
-  Allowed = {}
+  Allowed = {"resources.shadow.deep", "fresh.aboveMax", "maxid.setObject", "counts.indirect", "delete.bookmark"}
   Emit = TRUE
   EmitMod = 2000
   EmitModV = 200
